@@ -57,8 +57,9 @@ ASSUMPTIONS = [
     'np.histogram is called with explicit bin edges; str() is judged only when every line parses as "name: [v v ...]" with '
     'exactly contig-size values',
     'interval sets contain non-empty intervals inside their contig; zero-length intervals are not explored',
-    'GenomicRunLengthArray.from_intervals is judged directly only for strictly separated intervals with a scalar value (what '
-    'get_boolean_mask passes); touching intervals and array-valued `values` are executed and counted in extra, not judged',
+    'GenomicRunLengthArray.from_intervals is judged directly only for strictly separated intervals (what get_boolean_mask '
+    'passes), with the default / a scalar value and with one value per interval (the documented `values: ArrayLike`); touching '
+    'intervals are executed and counted in extra, not judged',
     'contig names are chr1..chrN (names with "_" belong to C10); in-memory arrays only (streamed arrays belong to C11/C12)',
     'state merging reads the run boundaries of the implementation best-effort via getattr(_global_track._events); if '
     'unavailable every expression is its own state (over-fine, never unsound)',
@@ -69,7 +70,7 @@ EXPLANATION = ('every bedGraph / interval set up to the bound is expanded by the
                'array built record by record; expression results are explored breadth-first with the dense NumPy result as oracle '
                'and every reached array is converted back and re-expanded')
 MANIFEST_TEXT = ('Exhaustive enumeration against dense NumPy arrays. quick: every bedGraph on genomes of 1..2 contigs of size 1..3 '
-                 '(all value assignments from {1,2} as int and float, True, explicit-zero patterns), 1..2 contigs with a size-4 contig, '
+                 '(all value assignments from {1,2} as int; float, True and explicit-zero value patterns), 1..2 contigs with a size-4 contig, '
                  '3 and 4 contigs of size 1..2 (value patterns); every multiset of <= 2 intervals (sorted and reversed) as mask and '
                  'pileup; each with to_dict / get_data / array[contig].to_bedgraph / sum / histogram / str and a menu of derived '
                  'expressions; every ordered pair of tracks x {+,-,*,<,>,==} and of masks x {&,|} on genomes (3), (2,2), (1,2,1); BFS '
@@ -92,7 +93,7 @@ def _bg_slices(tier, seed):
         ext_kind = ('int', 'float', 'bool')[seed % 3]
         return [
             ('a:<=2 contigs, size<=3', g23,
-             [('int', ('all', (1, 2))), ('float', ('all', (1, 2))), ('bool', ('pattern', (1,))),
+             [('int', ('all', (1, 2))), ('float', ('pattern', (1, 2))), ('float', ('pattern', (2, 1))), ('bool', ('pattern', (1,))),
               ('int', ('pattern', (0, 1))), ('int', ('pattern', (1, 0)))]),
             ('c:<=2 contigs, one of size 4 (extension slice: value kind rotates with the seed)',
              [g for g in M.genomes(2, 4) if max(g) == 4], [(ext_kind, ('pattern', (1, 2)))]),
@@ -768,7 +769,8 @@ def run_iv(res, desc, deadline):
 
 
 # ---- rl: GenomicRunLengthArray.from_intervals directly
-RL_VARIANTS = [('default', {}), ('default_value=False', {'default_value': False}), ('values=3', {'values': 3})]
+RL_VARIANTS = [('default', {}), ('default_value=False', {'default_value': False}), ('values=3', {'values': 3}),
+               ('values=array', None)]      # values=array: one value per interval (1, 2, ...), the documented `values: ArrayLike`
 
 
 def rl_case(size, layout, variant):
@@ -777,10 +779,16 @@ def rl_case(size, layout, variant):
     kw = dict(RL_VARIANTS)[variant]
     starts = np.array([a for a, b in layout], dtype=int)
     ends = np.array([b for a, b in layout], dtype=int)
-    value = kw.get('values', True)
-    exp = np.zeros(size, dtype=np.asarray(value).dtype)
-    for a, b in layout:
-        exp[a:b] = value
+    if kw is None:
+        kw = {'values': np.arange(1, len(layout) + 1)}
+        exp = np.zeros(size, dtype=int)
+        for (a, b), v in zip(layout, kw['values']):
+            exp[a:b] = v
+    else:
+        value = kw.get('values', True)
+        exp = np.zeros(size, dtype=np.asarray(value).dtype)
+        for a, b in layout:
+            exp[a:b] = value
     try:
         rla = GenomicRunLengthArray.from_intervals(starts, ends, size, **kw)
         arr = np.asarray(rla.to_array())
@@ -810,6 +818,8 @@ def run_rl(res, desc, deadline):
     for size in range(1, smax + 1):
         for layout in M.run_layouts(size):
             for variant, kw in RL_VARIANTS:
+                if kw is None and not layout:
+                    continue        # an empty `values` array for no intervals: nothing to interleave, not explored
                 res.evaluations += 1
                 res.planned += 1
                 res.traces += 1
@@ -829,14 +839,6 @@ def run_rl(res, desc, deadline):
                     res.fail(f['kind'], {'section': 'rl', 'size': size, 'layout': [list(x) for x in layout], 'variant': variant}, feats,
                              expected=f['expected'], observed=f['observed'], tb=f['traceback'])
                 res.outcome('rl:%s:%s:n=%d' % (variant, 'FAIL' if fails else 'ok', min(len(layout), 3)))
-            # array-valued `values`: dead code in the library (no caller); executed once per layout, never judged
-            if layout:
-                try:
-                    GenomicRunLengthArray.from_intervals(np.array([a for a, b in layout]), np.array([b for a, b in layout]), size,
-                                                         np.arange(1, len(layout) + 1))
-                    res.extra['rl_array_values:returns(not judged)'] += 1
-                except Exception as e:
-                    res.extra['rl_array_values:raises %s(not judged)' % exc_name(e)] += 1
     res.sample({'section': 'rl', 'size': 4, 'layout': [[1, 2], [3, 4]], 'variant': 'default', 'dense': [False, True, False, True]})
 
 
@@ -1036,8 +1038,12 @@ SECTION_RUNNERS = {'bg': run_bg, 'iv': run_iv, 'rl': run_rl, 'pairs': run_pairs,
 
 
 def run_shard(desc, deadline):
+    import time
     res = Result()
+    t0 = time.process_time()
     SECTION_RUNNERS[desc['section']](res, desc, deadline)
+    # cost accounting only (never used to steer the enumeration): CPU milliseconds per section, for the budget in the report
+    res.extra['cpu_ms:' + desc['section']] += int((time.process_time() - t0) * 1000)
     return res
 
 
@@ -1059,6 +1065,12 @@ def replay_case(case):
 def repro_py(case):
     if case['section'] == 'rl':
         kw = dict(RL_VARIANTS)[case['variant']]
+        if kw is None:
+            kw = {'values': list(range(1, len(case['layout']) + 1))}
+            return ('import numpy as np\nfrom bionumpy.arithmetics.intervals import GenomicRunLengthArray\n'
+                    'layout = %r\nr = GenomicRunLengthArray.from_intervals(np.array([a for a, b in layout], dtype=int), '
+                    'np.array([b for a, b in layout], dtype=int), %d, values=np.array(%r))\nprint(len(r), r.to_array())\n'
+                    % (case['layout'], case['size'], kw['values']))
         return ('import numpy as np\nfrom bionumpy.arithmetics.intervals import GenomicRunLengthArray\n'
                 'layout = %r\nr = GenomicRunLengthArray.from_intervals(np.array([a for a, b in layout], dtype=int), '
                 'np.array([b for a, b in layout], dtype=int), %d, **%r)\nprint(len(r), r.to_array())\n'
